@@ -70,29 +70,42 @@ def compute_hash(node: TreeNode, hashes: EvictionCache, cache: EvictionCache):
 def validate_graph(inputs: TreeNodes, output: TreeNode):
     def visitor(node):
         # input doesn't need parents
-        if node in inputs:
+        if node in inputs or node in visited:
             return
+        visited.add(node)
         # no edges - must be an input
         assert not node.is_leaf, (node, inputs)
 
         for inp in node.parents:
             visitor(inp)
 
+    visited = set()
     visitor(output)
 
 
 def count_entries(inputs: TreeNodes, output: TreeNode, multiplier: int = 1):
     def visitor(node: TreeNode):
-        entry_counts[node] += multiplier
-        # input doesn't need parents
-        if node in inputs:
+        if node in visited:
             return
+        visited.add(node)
+        # input doesn't need parents
+        if node not in inputs:
+            for n in node.parents:
+                visitor(n)
 
-        for n in node.parents:
-            visitor(n)
+        order.append(node)
 
-    entry_counts = defaultdict(int)
+    visited, order = set(), []
     visitor(output)
+    # each node is entered once per path from the output, so we count the paths instead of enumerating them:
+    #  in the reversed post-order a node's count is final before it's passed to its parents
+    entry_counts = defaultdict(int)
+    entry_counts[output] = multiplier
+    for node in reversed(order):
+        if node not in inputs:
+            for n in node.parents:
+                entry_counts[n] += entry_counts[node]
+
     return dict(entry_counts)
 
 
